@@ -196,7 +196,7 @@ def check(pid, tier, seed=None, keep=False):
     ev = evidence.build(mod, pid, tier, seed, merged, wall, reasons, dead,
                         violations=sum(v["count"] for _, v in new_viol),
                         known=[(k, v["count"]) for k, _, v in known_hits])
-    evidence.write(os.path.join(HOME, "evidence", f"{pid}.json"), ev)
+    evidence.write(os.path.join(os.environ.get("VERIF_EVIDENCE_DIR") or os.path.join(HOME, "evidence"), f"{pid}.json"), ev)
 
     for ln in lines:
         print(ln)
